@@ -4,10 +4,41 @@ use crate::cli_world::*;
 use crate::rng::Rng;
 use crate::rules::*;
 
+fn corpus_check() -> i32 {
+  use ast_grep_core::Language;
+  use std::str::FromStr;
+  let mut bad = 0;
+  for c in crate::corpus::CORPORA {
+    let lang = match ast_grep_language::SupportLang::from_str(c.lang) {
+      Ok(l) => l,
+      Err(_) => {
+        println!("corpus {}: unknown language", c.lang);
+        bad += 1;
+        continue;
+      }
+    };
+    let mut dirty = vec![];
+    for (i, sn) in c.snippets.iter().enumerate() {
+      let g = lang.ast_grep(format!("{sn}\n"));
+      if g.root().get_ts_node().has_error() {
+        dirty.push(i);
+      }
+    }
+    let joined = c.snippets.join("\n") + "\n";
+    let gj = lang.ast_grep(&joined);
+    let pats: usize = c.probes.iter().chain(c.rewrites.iter().map(|r| &r.0)).filter(|p| ast_grep_core::Pattern::try_new(p, lang).is_err()).count();
+    println!("corpus {:<11} snippets={} dirty_alone={:?} joined_dirty={} bad_patterns={}", c.lang, c.snippets.len(), dirty, gj.root().get_ts_node().has_error(), pats);
+    if !dirty.is_empty() || pats > 0 {
+      bad += 1;
+    }
+  }
+  bad
+}
+
 pub fn main() -> i32 {
   cli_run::quiet_panics();
   let mut rng = Rng::new(1);
-  let mut bad = 0;
+  let mut bad = corpus_check();
   for lang in RULE_LANGS {
     let mut specs = vec![];
     let mut utils = vec![];
